@@ -12,7 +12,18 @@ import (
 
 // DrawSpec draws one spec of the pool (valid and invalid ones).
 func DrawSpec(t *rapid.T, label string) *Spec {
-	switch k := rapid.IntRange(0, 11).Draw(t, label+"Kind"); {
+	switch k := rapid.IntRange(0, 13).Draw(t, label+"Kind"); {
+	case k >= 12:
+		// schema texts that end, or begin, in the middle of something: an annotation that closes on
+		// the last line, texts that open with an annotation or a comment, broken ones - whatever a
+		// reader keeps in mind at the end of one text must not meet the beginning of the next
+		text := rapid.SampledFrom([]string{
+			"1 /* n\n */", "1 /* {min: 0}\n*/", "{\n  \"a\": 1 /* {min: 0}\n  */\n}", "[\n  1, /* n\n  */ 2 // {min: 1}\n]",
+			"// {min: 1}\n2", "/* {min: 1} */ 2", "// note\n{}", "# c\n1 // {min: 0}", "### b ###\n[] // {minItems: 0}",
+			"1 // {min: 0 # c", "1 // {min: 0", "1 /* {min: 0}", "###", "1 ######", "1 ###", "@a |", "[1, // n", "{\"a\": 1 // {min: 0}",
+			"1 // {enum: [1, 2]", "{ // {allOf: \"@a\"", "\"s\" // {or: [{type: \"string\"}, {type: \"integer\"",
+		}).Draw(t, label+"OddText")
+		return &Spec{Kind: "schema", Schema: lib.Spec{Schema: text}, Docs: []string{"1", "2", "{}", "\"s\""}}
 	case k <= 4:
 		return DrawSchemaSpec(t, label, k%3)
 	case k == 5:
